@@ -281,8 +281,12 @@ class Def:
         self.where = where or []
         self.discr = {}     # variant name -> explicit discriminant (unit variants of deep-copy enums only)
         self.module = ''            # near-miss mutants live in a sub-module, under the same identifier
+        self.block = None           # twins: different definitions under one identifier in sibling blocks of one function
+                                    # (`core::any::type_name` is the same for all of them)
 
     def path(self):
+        if self.block is not None:
+            return '/*b%d*/%s' % (self.block, self.name)
         return (self.module + '::' + self.name) if self.module else self.name
 
     def defterm(self):
@@ -336,7 +340,16 @@ class Def:
         where = (' where ' + ', '.join(self.where)) if self.where else ''
         if not self.is_enum:
             vname, style, fields = self.variants[0]
-            if style == 'named':
+            # every other structure is stamped out by a macro_rules! whose field types are `$t:ty` fragments: the derive
+            # then sees each field type inside an invisible group, as it does for any macro-generated definition
+            stamped = sum(self.name.encode()) % 2 == 1
+            if style == 'named' and stamped:
+                body = ' { ' + ''.join('%s: %s, ' % (fn, te_rust(te, self)) for fn, te in fields) + '}'
+                return 'stamped! { [' + ' '.join(out) + ' pub struct %s%s%s]%s }' % (self.name, self.generics_decl(), where, body) + self.rust_impls()
+            elif style == 'tuple' and stamped and fields:
+                body = ' (' + ''.join('%s, ' % te_rust(te, self) for fn, te in fields) + ')'
+                return 'stamped! { [' + ' '.join(out) + ' pub struct %s%s]%s [%s] }' % (self.name, self.generics_decl(), body, where) + self.rust_impls()
+            elif style == 'named':
                 body = ' { ' + ''.join('pub %s: %s, ' % (fn, te_rust(te, self)) for fn, te in fields) + '}'
                 out.append('pub struct %s%s%s%s' % (self.name, self.generics_decl(), where, body))
             elif style == 'tuple':
@@ -354,6 +367,10 @@ class Def:
                 else:
                     vs.append(vname + (' = %d' % self.discr[vname] if vname in self.discr else ''))
             out.append('pub enum %s%s%s { %s }' % (self.name, self.generics_decl(), where, ', '.join(vs)))
+        return '\n'.join(out) + self.rust_impls()
+
+    def rust_impls(self):
+        out = ['']
         # Show / FromTerm, generic over the parameters (one impl serves the type and its ε-copy form)
         tp = [p['name'] for p in self.tparams]
         cp = ['const %s: %s' % (c['name'], c['prim']) for c in self.cparams]
@@ -779,24 +796,57 @@ class Universe:
 
     def rust_source(self):
         out = ['// generated by gen/universe.py — do not edit', '#![allow(unused, non_camel_case_types, non_snake_case, clippy::all)]',
-               'use epsh::*;', 'use epserde::prelude::*;', '']
+               'use epsh::*;', 'use epserde::prelude::*;', '',
+               'macro_rules! stamped {',
+               '    ( [$($head:tt)*] { $($f:ident : $t:ty),* $(,)? } ) => { $($head)* { $(pub $f : $t),* } };',
+               '    ( [$($head:tt)*] ( $($t:ty),* $(,)? ) [$($tail:tt)*] ) => { $($head)* ( $(pub $t),* ) $($tail)* ; };',
+               '}', '']
+        def block_of(t):
+            bs = [x.d.block for x in t.walk() if isinstance(x, Adt) and x.d.block is not None]
+            return bs[0] if bs else None
+        blocks = sorted(set(d.block for d in self.defs if d.block is not None))
+        twin_pos = {}
+        out.append('/// types that cannot be named outside the block that defines them: (entry, names of the ε-copy type)')
+        out.append('pub fn twins() -> Vec<(Entry, (String, String, String))> {')
+        out.append('    let mut v = Vec::new();')
+        for b in blocks:
+            out.append('    {')
+            for d in self.defs:
+                if d.block == b: out.append('        ' + d.rust_def().replace('\n', ' '))
+            for i, t in enumerate(self.types):
+                if block_of(t) == b:
+                    twin_pos[i] = len(twin_pos)
+                    out.append('        v.push((%s::<%s>("%s"), (core::any::type_name::<DeserType<\'static, %s>>().to_string(), core::any::type_name::<%s>().to_string(), core::any::type_name::<%s>().to_string())));'
+                               % ('entry_z' if t.is_zc() else 'entry', t.rust(), t.rust(), t.rust(), t.deser_rust(), t.rust()))
+            out.append('    }')
+        out.append('    v')
+        out.append('}')
+        out.append('')
         for d in self.defs:
+            if d.block is not None:
+                continue
             if d.module:
                 out.append('pub mod %s { use super::*; %s }' % (d.module, d.rust_def().replace('\n', ' ')))
             else:
                 out.append(d.rust_def())
             out.append('')
         out.append('pub fn registry() -> Vec<Entry> {')
+        out.append('    let mut tw: Vec<Option<Entry>> = twins().into_iter().map(|x| Some(x.0)).collect();')
         out.append('    vec![')
-        for t in self.types:
+        for i, t in enumerate(self.types):
             f = 'entry_z' if t.is_zc() else 'entry'
+            if i in twin_pos:
+                out.append('        tw[%d].take().unwrap(),' % twin_pos[i]); continue
             out.append('        %s::<%s>("%s"),' % (f, t.rust(), t.rust()))
         out.append('    ]')
         out.append('}')
         out.append('/// (actual, predicted) type names of the ε-copy type of every registered type')
         out.append('pub fn dtype_names() -> Vec<(String, String, String)> {')
+        out.append('    let tw = twins();')
         out.append('    vec![')
-        for t in self.types:
+        for i, t in enumerate(self.types):
+            if i in twin_pos:
+                out.append('        tw[%d].1.clone(),' % twin_pos[i]); continue
             out.append('        (core::any::type_name::<DeserType<\'static, %s>>().to_string(), core::any::type_name::<%s>().to_string(), core::any::type_name::<%s>().to_string()),'
                        % (t.rust(), t.deser_rust(), t.rust()))
         out.append('    ]')
@@ -888,7 +938,35 @@ def stress_defs(prefix='K'):
     zu = Def(prefix + 'ZU', False, 'zero', ['C'], 1, [], [], [(prefix + 'ZU', 'unit', [])])
     defs.append(zu)
     zs('ZV', [('a', A(P('u64'), 0)), ('b', ('ty', Adt(zu, [], [])))])
+    # round 6: a unit far above a page (gaps longer than 4096 bytes); a generic deep struct with one parameter-typed field
+    # (its ε-copy form holds a reference even when the argument is zero-sized: items of zero bytes that are not zero-sized)
+    # and a two-parameter pair, for allocation measurements with payloads *after* such a vector
+    zs('Z11', [('a', P('u16')), ('b', P('u64'))], reprs=('C', 'align(16384)'), align=16384)
+    w1 = Def(prefix + 'W1', False, 'none', [], 1, [{'name': 'A', 'bounds': [], 'default': None, 'role': 'eps'}], [],
+             [(prefix + 'W1', 'named', [('x', ('param', 0))])])
+    defs.append(w1)
+    p2 = Def(prefix + 'P2', False, 'none', [], 1, [{'name': 'A', 'bounds': [], 'default': None, 'role': 'eps'}, {'name': 'B', 'bounds': [], 'default': None, 'role': 'eps'}], [],
+             [(prefix + 'P2', 'named', [('a', ('param', 0)), ('b', ('param', 1))])])
+    defs.append(p2)
     return defs
+
+
+def twin_defs(prefix='K'):
+    """Different definitions under one identifier, in sibling blocks of one function: `core::any::type_name` cannot tell
+    them apart, the hashes must."""
+    P = lambda n: ('ty', Prim(n))
+    out = []
+    def mk(block, name, copy, reprs, align, fields):
+        d = Def(prefix + name, False, copy, list(reprs), align, [], [], [(prefix + name, 'named', fields)])
+        d.block = block
+        out.append(d); return d
+    mk(0, 'TW', 'none', [], 1, [('a', P('u32')), ('b', ('ty', Seq('vec', Prim('u16'))))])
+    mk(1, 'TW', 'none', [], 1, [('a', P('u64')), ('b', ('ty', Str())), ('c', P('u8'))])
+    mk(0, 'TZ', 'zero', ['C'], 1, [('a', P('u8')), ('b', P('u32'))])
+    mk(1, 'TZ', 'zero', ['C'], 1, [('a', P('u32')), ('b', P('u8'))])
+    mk(0, 'TA', 'zero', ['C'], 1, [('a', P('u8')), ('b', P('u16'))])
+    mk(1, 'TA', 'zero', ['C', 'align(8)'], 8, [('a', P('u8')), ('b', P('u16'))])
+    return out
 
 
 SAME_SIZE = {'u8': ['i8'], 'i8': ['u8'], 'u16': ['i16'], 'i16': ['u16'], 'u32': ['i32', 'f32'], 'i32': ['u32'], 'f32': ['u32'],
